@@ -154,18 +154,27 @@ def oracle_copy(case):
     tree = Tree(spec)
     guest = to_statechart(spec)
     ref = run_sig(spec, to_statechart(spec), case['ops'])
+    from ..spec import from_statechart
     host = Statechart('host')
     host.add_state(CompoundState('host', initial='slot'), None)
     host.add_state(BasicState('slot'), 'host')
+    host.add_state(BasicState('slot2'), 'host')
     pre = case['prefix']
     labels = {'copy cases': 1}
+    guest_before = from_statechart(guest)
     try:
         host.copy_from_statechart(guest, source=guest.root, replace='slot',
                                   renaming_func=lambda n: pre + n)
+        # the same guest plugged into a second (never entered) slot
+        host.copy_from_statechart(guest, source=guest.root, replace='slot2',
+                                  renaming_func=lambda n: pre + '2' + n)
     except Exception as e:
         return {'violations': [{'prop': PROP, 'kind': 'copy-raised', 'step': None,
                                 'detail': {'exc': type(e).__name__, 'msg': str(e)[:200]}}],
                 'labels': labels, 'keys': []}
+    if from_statechart(guest) != guest_before:
+        return {'violations': [{'prop': PROP, 'kind': 'copy-changed-the-guest', 'step': None,
+                                'detail': {}}], 'labels': labels, 'keys': []}
     f = lambda n: 'slot' if n == tree.root else pre + n  # noqa: E731
     want = map_sig(ref, f)
     for s in want:
